@@ -411,7 +411,8 @@ def run(chk: Check) -> None:
             back = back2 = repr(e)
         if back != v or back2 != v:
             rt_fail("quote-roundtrip", f"unquote(quote(v)) = {back!r}", {"value": v})
-    for v in vals[:len(corpus_vals)] + [gen_hostile(rng) for _ in range(n)]:
+    quoted_soup = ['"' + _s(rng, ["\\", '"', "a", "\\\\", '\\"', "%22", " "], 0, 6) + '"' for _ in range(n)]
+    for v in vals[:len(corpus_vals)] + ['"\\\\""', '"\\"\\"'] + quoted_soup + [gen_hostile(rng) for _ in range(n)]:
         C.add(f"unquote {cps(v)}", lambda: cps(H.unquote_header_value(v)))
 
     # ------------------------------------------------------------ lists / sets
